@@ -152,9 +152,16 @@ def shrink_argv(argv, bad, budget=120):
     return cur
 
 
-def expected(argv):
-    d, p, f = argmodel.scan(argv[1:])
+def expected(argv, grouped=True):
+    """Search directories: all -I (in command-line order) then all -isystem (in command-line order) -- the order a
+    compiler searches them (C04); the plain command-line order is accepted too (the statement does not fix the
+    interleaving of the two kinds)."""
+    d, p, f = argmodel.scan(argv[1:], grouped=grouped)
     return (d + implicit_defines(argv[0]), p, f)
+
+
+def matches(val, argv):
+    return tuple(val) == tuple(expected(argv, True)) or tuple(val) == tuple(expected(argv, False))
 
 
 def classify(shrunk, observed):
@@ -208,7 +215,7 @@ def check_argv(ctx, obs, argv, cls, cells_extra=()):
         if v.startswith("-") or "=-" in v:
             cells.add("value:leading-dash")
     nontriv = argv if (has_mod and has_unmod) else None
-    ok = st == "ok" and tuple(val) == tuple(exp)
+    ok = st == "ok" and matches(val, argv)
     if ok:
         acc.held(cells=cells, nontrivial=nontriv, cls=cls,
                  sample={"argv": argv, "defines": exp[0], "include_paths": exp[1], "include_files": exp[2]})
@@ -216,7 +223,7 @@ def check_argv(ctx, obs, argv, cls, cells_extra=()):
 
     def bad(a):
         (s2, v2), _ = obs.parse(a)
-        return not (s2 == "ok" and tuple(v2) == tuple(expected(a)))
+        return not (s2 == "ok" and matches(v2, a))
 
     sh = shrink_argv(argv, bad)
     (s3, v3), _ = obs.parse(sh)
@@ -391,7 +398,9 @@ def database_form(ctx, obs, rng, work):
             continue
         exp = expected(argv)
         (st0, val0), _ = obs.parse(argv)
-        if st0 != "ok" or tuple(val0) != tuple(exp):
+        if st0 == "ok" and tuple(val0) == tuple(expected(argv, False)):
+            exp = expected(argv, False)
+        if st0 != "ok" or not matches(val0, argv):
             continue        # already judged (and classified) by the direct path
         results = []
         for form in ("arguments", "command"):
@@ -476,5 +485,5 @@ def replay(record, ctx):
     argv = record["input"]["argv"]
     (st, val), _ = obs.parse(argv)
     exp = expected(argv)
-    ok = st == "ok" and tuple(val) == tuple(exp)
+    ok = st == "ok" and matches(val, argv)
     return {"verdict": "held" if ok else "violated", "expected": exp, "observed": [st, val]}
